@@ -9,6 +9,7 @@ mod c05;
 mod c06;
 mod c07;
 mod c08;
+mod c09;
 mod c10;
 mod c11;
 mod c13;
@@ -50,6 +51,7 @@ fn main() {
             let cases: Vec<String> = match prop {
                 "C13" => c13::cases().iter().map(|c| c.to_json()).collect(),
                 "C07" => c07::cases().iter().map(|c| c.to_json()).collect(),
+                "C09" => c09::cases(),
                 _ => { eprintln!("no engine cases for {prop}"); std::process::exit(2) }
             };
             for c in cases { println!("CASE {c}"); }
